@@ -291,6 +291,54 @@ fn odd_api_use(ctx: &Ctx) {
     ctx.count("odd_api_use_sessions", jobs.len() as u64);
 }
 
+
+/// Messages sealed by someone who does NOT know the session keys, under keys anyone can guess (all zero, all 0xFF,
+/// the session's handshake hash is not secret either): never accepted - at the start of the transport phase, and
+/// after the receiver was parked on the reserved nonce, refused a message there and was pointed back (whatever an
+/// implementation does to an exhausted cipherstate, it must not end up on a guessable key).
+fn guessable_key_forgeries(ctx: &Ctx) {
+    let mut jobs = vec![];
+    for (c, b) in cipher_backends() {
+        for pat in ["NN", "XX", "N"] {
+            for excursion in [false, true] {
+                jobs.push((c, b, pat, excursion));
+            }
+        }
+    }
+    jobs.par_iter().for_each(|(c, b, pat, excursion)| {
+        let p = proto(pat, &[], DhAlg::X25519, *c, HashAlg::Sha256);
+        let cfg = session_cfg(&p, *b, 0);
+        let mut ops = sess::handshake_ops(&p, &[0, 0, 0, 0]);
+        ops.extend(sess::convert_ops(Mode::TT));
+        ops.push(Op::TWrite { side: Side::I, plen: 5, cap: Cap::Roomy });
+        if *excursion {
+            ops.push(Op::SetRecvNonce { side: Side::R, n: u64::MAX });
+            ops.push(Op::TRead { side: Side::R, msg: Msg::Last(Side::I), cap: Cap::Roomy });
+            ops.push(Op::SetRecvNonce { side: Side::R, n: 0 });
+        }
+        for key in [[0u8; 32], [0xffu8; 32], [0x01u8; 32]] {
+            for n in [0u64, 1] {
+                let forged = c.encrypt(&key, n, &[], b"forged");
+                ops.push(Op::TRead { side: Side::R, msg: Msg::Raw(forged), cap: Cap::Roomy });
+            }
+        }
+        // the genuine message is still there to be read
+        ops.push(Op::TRead { side: Side::R, msg: Msg::Last(Side::I), cap: Cap::Roomy });
+        let e = Exec::run(&cfg, &ops);
+        ctx.add(&ctx.evaluations, e.steps.len() as u64);
+        ctx.add(&ctx.transitions, e.steps.len() as u64);
+        ctx.add(&ctx.traces, 1);
+        let rejected = e.steps.iter().filter(|s| matches!(s.op, Op::TRead { .. }) && !s.real.is_ok()).count();
+        ctx.add(&ctx.nontrivial, rejected as u64);
+        ctx.count("deliveries_rejected", rejected as u64);
+        ctx.count("deliveries_accepted", e.steps.iter().filter(|s| matches!(s.op, Op::TRead { .. }) && s.real.is_ok()).count() as u64);
+        for m in sess::filter(&e, &CATS) {
+            ctx.violation(format!("{} (message sealed under a guessable key{})", sess::signature(&e, m), if *excursion { ", after the receiver was parked on the reserved nonce and pointed back" } else { "" }), format!("{} {:?}: {}", p.name, b, m.detail), sess::case_json(&cfg, &ops[..=m.step.min(ops.len() - 1)]));
+        }
+    });
+    ctx.count("guessable_key_sessions", jobs.len() as u64);
+}
+
 pub fn run(tier: Tier) -> i32 {
     let ctx = Ctx::new("C04", tier, "fault_enumeration");
     // the whole thorough alphabet costs a few seconds: both tiers run it
@@ -362,6 +410,7 @@ pub fn run(tier: Tier) -> i32 {
         }
     });
     odd_api_use(&ctx);
+    guessable_key_forgeries(&ctx);
     // stateless: genuine message under a different nonce
     let pair_cases: Vec<(Proto, Backend, bool)> = cipher_backends().into_iter().flat_map(|(c, b)| vec![(proto("NN", &[], DhAlg::X25519, c, HashAlg::Sha256), b, false), (proto("N", &[], DhAlg::X25519, c, HashAlg::Blake2s), b, false), (proto("NN", &[], DhAlg::X25519, c, HashAlg::Sha512), b, true)]).collect();
     pair_cases.par_iter().for_each(|(p, b, stateful_reader)| {
